@@ -27,7 +27,7 @@ BUDGET = {"quick": (12, 3000, 90), "thorough": (16, 8000, 1200)}
 PYTEST = True     # thorough tier also runs the repository's own tests under these monitors
 MANDATORY = ["judged:construct", "judged:construct:callable-default", "judged:construct:float-nan-default", "judged:construct:int-lower-default",
              "judged:boolean-integer-partition", "judged:integer.from_list", "judged:boolean.from_list", "judged:to_list:1D", "judged:to_list:2D",
-             "judged:A", "judged:b", "judged:to_linalg", "judged:rewrap:polyhedron", "judged:rewrap:array", "judged:construct:default-min-int-lower"]
+             "judged:A", "judged:b", "judged:to_linalg", "judged:rewrap:polyhedron", "judged:rewrap:array", "judged:construct:default-min-int-lower", "count:construct:non-string-ids"]
 
 
 # ------------------------------------------------------------------------------------------- construct
@@ -375,8 +375,14 @@ def run_case(case, ctx):
             return puan.variable(v[0], bounds=(0, 1), dtype="int")
         return puan.variable(v[0], bounds=puan.Bounds(v[1], v[2]), dtype="bool")
     vs = [mkvar(v) if len(v) > 3 else (ItemVar if rng.random() < 0.1 else puan.variable)(v[0], bounds=(v[1], v[2])) for v in case["vars"]]
-    ids = [v.id for v in vs]
     kind = case["kind"]
+    nonstr = kind == "construct" and rng.random() < 0.25
+    if nonstr:
+        # ids need not be strings (the library's own default column ids are integers): an id is matched as the dictionary matches keys, so "1" is not 1
+        for z in rng.sample([0, 1, 2, 7, -1, (1, 2)], rng.randint(1, 3)):
+            vs.insert(rng.randint(0, len(vs)), puan.variable(z, bounds=rng.choice([(0, 1), (-3, 3), (2, 5)])))
+        ctx.count("count:construct:non-string-ids")
+    ids = [v.id for v in vs]
     if kind == "rewrap":
         return run_rewrap(case, ctx, rng, vs)
     if kind in ("construct", "indices"):
@@ -404,6 +410,12 @@ def run_case(case, ctx):
         vv = {i: rng.randint(-9, 9) for i in named}
         if rng.random() < 0.4:
             vv["unknown-id"] = 5
+        if nonstr:
+            for z in ids:
+                if not isinstance(z, str) and str(z) not in vv and rng.random() < 0.6:
+                    vv[str(z)] = rng.randint(-9, 9)        # the text form of a non-string id: another id (a column of its own, or unknown)
+                    if z in vv and rng.random() < 0.5:
+                        del vv[z]
         dname = rng.choice(list(DTYPES))
         kw = {}
         if rng.random() < 0.2:
